@@ -38,7 +38,7 @@ CHECKS = {
         category="model_checking",
         technique="TLC trace validation (Trace_Codec / Trace_Api conjuncts NoPanic, RenderOK) of recovered-panic outcome records from systematic byte-string and argument enumeration through every decode entry point, operation and the event handler",
         text="Totality: the specification gives every decode entry point and operation a non-panic outcome for every input, so a recorded panic (recovered by the harness) or a panicking String()/JSON rendering of a returned value is a trace the specification rejects. "
-             "Inputs: every length 0..80 (+ selected to 2048) x 6 content classes, every single byte of a valid message over all 256 values and special patterns per field, for all 65 message types through Unmarshal / UnmarshalAs / UnmarshalArray / UnmarshalArrayElement and the dispatchers; arbitrary datagrams returned to every operation and the listener; C02's field-by-field reply generator through every operation with String() called directly and JSON; byte strings of every length through the REAL driver on loopback (udp, tcp, broadcast, discovery, listener; debug off/on) and windows full of datagrams (60 x 2048, 1200 x 64, 300 x 1 bytes); OnError answers true / false alternately; extreme argument tuples. A harness process killed by a panic whose first non-runtime frame is library code is reported as a violation.",
+             "Inputs: every length 0..80 (+ selected to 2048) x 6 content classes, every single byte of a valid message over all 256 values and special patterns per field, for all 65 message types through Unmarshal / UnmarshalAs / UnmarshalArray / UnmarshalArrayElement and the dispatchers; arbitrary datagrams returned to every operation and the listener; C02's field-by-field reply generator through every operation with String() called directly and JSON; byte strings of every length through the REAL driver on loopback (udp, tcp, broadcast, discovery, listener; debug off/on) and windows full of datagrams (60 x 2048, 1200 x 64, 300 x 1 bytes); OnError answers true / false alternately; extreme argument tuples. A harness process killed by a panic whose first non-runtime frame is library code is reported as a violation. The extreme argument tuples are also ANSWERED by well-formed replies, so that whatever comes back for an out-of-range argument is rendered too.",
         note="Trusted: recover() as panic observer; TLC. The specification contributes the outcome classes and (where inputs are in C02/C05's domain) the values; it cannot itself observe a Go panic.",
         design="4/C04",
     ),
@@ -46,7 +46,7 @@ CHECKS = {
         category="model_checking",
         technique="TLC trace validation (Trace_Codec: EncodedOK / decoded = value / slack independence / dispatch table) of codec calls on all 65 message types in child processes per time zone; slack positions exported from the specification",
         text="For generated in-domain values of every registered message type the specification checks the encoding byte for byte, that decoding (Unmarshal, UnmarshalAs) returns the value, that it still does after bytes outside every field (positions computed by TLC) are changed, when decoded into a struct that already holds another message of the type (ReuseIndependent) and after the input buffer is overwritten (NoAlias); boundary values of every field kind (a quarter of the calendar values on the process zone's offset-change days); "
-             "the dispatchers are checked against Messages!TypeOfCode over all function codes, lengths and protocol ids. One child process per zone: 12 zones quick, every IANA zone thorough.",
+             "the dispatchers are checked against Messages!TypeOfCode over all function codes, lengths and protocol ids. One child process per zone: 12 zones quick, every IANA zone thorough. A shape class per field (FieldTypeFitsLayout) is compared with the layout kind first: a Go field type that cannot hold the layout kind is a violation, and the comparison stays total.",
         note="Trusted: spec tables; TLC; reflection-based value generation/projection in the harness; existence of a civil time in a zone is taken from Go's time package.",
         design="4/C05",
     ),
@@ -54,7 +54,7 @@ CHECKS = {
         category="model_checking",
         technique="TLC trace validation (Trace_Api: route = Api!Route(op,cfg,serial), one transport call) over 32 operations x 270 client configurations on the scripted transport; TLC trace validation (Trace_Transport TAsk: arrival transport/endpoint, source = bind address, exactly once, silent decoys) of real-socket scenarios",
         text="Api!Route is the routing rule of the property (usable address => direct, tcp only when configured tcp, otherwise broadcast to the configured or default broadcast address; discovery always broadcasts). Every recorded call under every configuration of the product (half of them answered with a well-formed reply) must invoke the transport once with exactly that method and endpoint; "
-             "on real sockets the farm records where each request arrived, from which source address/port, how often, and that decoy endpoints heard nothing; strangers write to the port of connected-UDP calls too (the kernel never shows them to the call: StrangersCannotTouchDirected, XF_UnconnectedUDP refuted); one client configured with all controllers in every other scenario; the source address of discovery / broadcast-to / UDP / TCP requests from bind addresses 127.0.0.2:0 and 127.0.0.3:fixed as seen by the farm (SourceIsBindAddress).",
+             "on real sockets the farm records where each request arrived, from which source address/port, how often, and that decoy endpoints heard nothing; strangers write to the port of connected-UDP calls too (the kernel never shows them to the call: StrangersCannotTouchDirected, XF_UnconnectedUDP refuted); one client configured with all controllers in every other scenario; the source address of discovery / broadcast-to / UDP / TCP requests from bind addresses 127.0.0.2:0 and 127.0.0.3:fixed as seen by the farm (SourceIsBindAddress). The real-driver pass (a fatal datagram answering the first request of every reply-bearing operation x path, every fatal kind; a well-formed reply ready for a repeated request) adds NoSecondRequest.",
         note="Trusted: TLC; the default broadcast address 255.255.255.255:60000 is only observable at the driver boundary (sealed network).",
         design="4/C06",
     ),
@@ -124,7 +124,7 @@ CHECKS = {
     "C15": dict(
         category="model_checking",
         technique=PURE + " (AcceptExact, Reject, FormatRoundTrip, RejectNoQuad; spec/Addr.tla) + TLC check of the grammar's consistency (MC_Addr)",
-        text="Addr!MustAccept / MustReject / don't-care partition texts per role; every string over {1,0,2,5,.,:} up to length 7/9, all ports (and decimal numbers beyond 65535: MustReject), single-character mutations of valid addresses and format/parse round trips (boundary addresses such as 0.0.0.0 and 255.255.255.255 x boundary ports first, then random) are judged by TLC for all four roles through Parse, MustParse, Set and the XAddrFrom constructors; a port text with a non-digit is refused (NonDecimalPort), an accepted zero-padded port is its decimal value (AcceptedMeansDecimal), the same text parsed twice gets the same answer. Set() is also called on objects that already hold an address (same address with another port, another address with the same port, both different), judged like Parse.",
+        text="Addr!MustAccept / MustReject / don't-care partition texts per role; every string over {1,0,2,5,.,:} up to length 7/9, all ports (and decimal numbers beyond 65535: MustReject), single-character mutations of valid addresses and format/parse round trips (boundary addresses such as 0.0.0.0 and 255.255.255.255 x boundary ports first, then random) are judged by TLC for all four roles through Parse, MustParse, Set and the XAddrFrom constructors; a port text with a non-digit is refused (NonDecimalPort), an accepted zero-padded port is its decimal value (AcceptedMeansDecimal), the same text parsed twice gets the same answer. Set() is also called on objects that already hold an address (same address with another port, another address with the same port, both different), judged like Parse. A cold pass runs four fresh processes in each of which the first address ever parsed goes through another role's parser.",
         note="Trusted: TLC; texts as code points.",
         design="4/C15",
     ),
@@ -138,14 +138,14 @@ CHECKS = {
     "C17": dict(
         category="model_checking",
         technique="TLC model check of spec/Insulation.tla (RoutesBySnapshot, HeldStable; three XF design switches refuted); stateful TLC trace validation (Trace_Insulation: snapshot taken at `construct`, every later call must route by Api!Route(snapshot), every re-check must show the held rendering)",
-        text="Every history of <=3/<=4 actions over {mutate caller data, mutate the DeviceList map, call, scribble transport buffers, mutate a result, re-check, clone} (+ random histories of length 20) replayed on the scripted transport, which hands out slices of one reusable buffer; argument values (cards, profiles, tasks' weekday maps, keypad maps, passcode windows with their tail) and the caller's device list (entries with id 0, spare capacity) are re-projected after each call / after construction; on the real driver every reply-bearing operation and discovery over each path with the result kept across 1-4 further exchanges (KeptResultUnaffected). Per operation: the call for the configured controller answered \"succeeded\", further calls for it (routed by the snapshot) and the configuration the client reports afterwards.",
+        text="Every history of <=3/<=4 actions over {mutate caller data, mutate the DeviceList map, call, scribble transport buffers, mutate a result, re-check, clone} (+ random histories of length 20) replayed on the scripted transport, which hands out slices of one reusable buffer; argument values (cards, profiles, tasks' weekday maps, keypad maps, passcode windows with their tail) and the caller's device list (entries with id 0, spare capacity) are re-projected after each call / after construction; on the real driver every reply-bearing operation and discovery over each path with the result kept across 1-4 further exchanges (KeptResultUnaffected). Per operation: the call for the configured controller answered \"succeeded\", further calls for it (routed by the snapshot) and the configuration the client reports afterwards. The same call answered twice by byte-identical replies, the first result edited in between, must give equal results (Trace_Insulation!TSameReply).",
         note="Trusted: TLC; projections of held values; argument immutability by re-projection of the values the caller still holds.",
         design="4/C17",
     ),
     "C18": dict(
         category="model_checking",
         technique="TLC trace validation (Trace_Layout: Wire!EncodedOK / round trip / NoAlias / TagsEnforced applied to the layout carried by each event) of struct types generated from the tag grammar with reflect.StructOf",
-        text="The same executable field codec that judges the shipped messages judges generated layouts: every single-field layout (19 Go field types x every fitting offset x top-level/embedded), fixed-value byte tags in four notations at every offset, and 1000/20000 random multi-field layouts packed to the last byte, the embedded struct first / in the middle / last among the top-level fields; inner fields that share a Go name with an outer field or with a field of a second embedded struct; two named Go types of the same name with different layouts; plus aliasing (input buffer overwritten after decode), the zero value of every layout, Marshal by pointer, decoding into a struct that already holds other values, and enforcement of function-code / fixed-value tags.",
+        text="The same executable field codec that judges the shipped messages judges generated layouts: every single-field layout (19 Go field types x every fitting offset x top-level/embedded), fixed-value byte tags in four notations at every offset, and 1000/20000 random multi-field layouts packed to the last byte, the embedded struct first / in the middle / last among the top-level fields; inner fields that share a Go name with an outer field or with a field of a second embedded struct; two named Go types of the same name with different layouts; plus aliasing (input buffer overwritten after decode), the zero value of every layout, Marshal by pointer, decoding into a struct that already holds other values, and enforcement of function-code / fixed-value tags. Fixed-value tags are generated in four spellings (either clause order; comma, semicolon or blank between them).",
         note="Trusted: TLC; layouts are harness-generated (seeded), not exported from TLC.",
         design="4/C18",
     ),
